@@ -26,6 +26,7 @@ func runC08(e *Env) error {
 	r.Rule = "(a) every ordered pair of binary operators × both groupings × several atom assignments: minimal vs full parenthesisation on the real engine, minimal spelling also through the Lean model; " +
 		"(b) random expression trees (depth ≤ 4, thorough 6) over literals, variables, attribute/index access, unary, binary, conditional, tests, filters, printed minimal / full / with redundant parentheses and random spacing; " +
 		"(a') every symbolic operator between 13 left and 10 right operand shapes written with no spaces vs with spaces; (c) one expression in ten syntactic positions; (d'') `matches` with and without the i flag asked in three orders against package regexp; (d) short-circuit and conditional evaluation observed through spy functions; (e) exact integer arithmetic against math/big; " +
+		"(f) integers of every decimal length up to 2^53 computed by + - * / % ^ and unary minus, written in every text-taking position (~, starts/ends with, in, matches, hash keys, subscripts, string filters, join, comparison with text, set, for, if, include, macro) against math/big's decimal spelling; " +
 		"non-trivial = at least two operators; distinct by source"
 	ctx := map[string]any{"a": 7, "b": 2, "c": 3, "s": "ab", "u": "b", "t": true, "f": false, "l": []interface{}{1, 2, "b"}, "z": 0}
 	atomSets := [][3]GExpr{
@@ -202,6 +203,13 @@ func runC08(e *Env) error {
 		}
 	}
 	if matchesOracle(e, "C08 operator semantics (implementation-only oracle against package regexp; regular expressions are not modelled)") {
+		return nil
+	}
+	// (f) computed integers of every decimal length written as text in every text-taking position (c08_numstr.go)
+	if err := c08NumbersAsText(e); err != nil {
+		return err
+	}
+	if r.Full() {
 		return nil
 	}
 	// (e) exact integer arithmetic
